@@ -185,21 +185,21 @@ def _library_would_reject(eng, st, Tm, Um, uty):
     turns away nothing the library would have accepted"""
     from sa.terms import subst
 
-    if st.holds(("eq", uty, C("root"))):
-        sm = eng.summary(eng.prog.func("authentication.verify_root"))
-        mp = {P(sm.params[0]): Tm, P(sm.params[1]): Um}
-    elif st.holds(("ne", uty, C("root"))):
-        sm = eng.summary(eng.prog.func("authentication.verify_delegation"))
-        mp = {P(sm.params[0]): uty, P(sm.params[1]): Um, P(sm.params[2]): Tm}
-    else:
-        return False
-    rets = [p for p in sm.paths if p.kind == "return"]
-    if not rets:
-        return False
-    for p in rets:
-        if not any(st.contradicts(subst(f, mp)) for f in p.facts if f[0] in ("eq", "ne", "has", "nothas", "type", "nottype", "in", "notin")):
+    smr = eng.summary(eng.prog.func("authentication.verify_root"))
+    smd = eng.summary(eng.prog.func("authentication.verify_delegation"))
+    cands = []
+    if not st.holds(("ne", uty, C("root"))):
+        cands.append((smr, {P(smr.params[0]): Tm, P(smr.params[1]): Um}))
+    if not st.holds(("eq", uty, C("root"))):
+        cands.append((smd, {P(smd.params[0]): uty, P(smd.params[1]): Um, P(smd.params[2]): Tm}))
+    for sm, mp in cands:
+        rets = [p for p in sm.paths if p.kind == "return"]
+        if not rets:
             return False
-    return True
+        for p in rets:
+            if not any(st.contradicts(subst(f, mp)) for f in p.facts if f[0] in ("eq", "ne", "has", "nothas", "type", "nottype", "in", "notin", "ok", "notok", "ret")):
+                return False
+    return bool(cands)
 
 
 def _nothing_to_sign(eng, sms, p):
